@@ -250,6 +250,8 @@ class Analyzer:
             low = name.lower()
             if name in STDOUT_CALLS or low in STDOUT_CALLS or name.endswith('.print') and 'console' in low:
                 s.add('stdout', n.lineno, guards); return
+            if '.' in name and name.rsplit('.', 1)[1] in ('debug', 'info', 'warning', 'warn', 'error', 'critical', 'exception', 'log') and 'log' in name.rsplit('.', 1)[0].lower():
+                s.add('stdout', n.lineno, guards); return       # a logger object: with logging unconfigured, WARNING and above reach stderr through the last-resort handler
             if name == 'open':
                 mode = 'r'
                 if len(n.args) > 1 and isinstance(n.args[1], ast.Constant): mode = n.args[1].value
